@@ -44,7 +44,7 @@ def main():
         checks = ["C%02d" % i for i in range(1, 21)] if allchecks else [prop]
         jobs.append((sid, checks))
     head = sh("git -C /repo log --format=%h -1").stdout.strip()
-    with concurrent.futures.ThreadPoolExecutor(3) as ex:
+    with concurrent.futures.ThreadPoolExecutor(int(os.environ.get("SEED_PAR", "3"))) as ex:
         for sid, res in ex.map(lambda j: run_seed(*j), jobs):
             d = os.path.join(SEEDED, sid)
             prop = sid.split("-")[0]
